@@ -762,3 +762,66 @@ pub fn gen_setup(rng: &mut Rng, seed: u64, p: &Program, stall_pct: u32, spurious
     s.faults = f;
     s
 }
+
+/// C19 scenarios: rayon `par_extend` / `from_par_iter` through the simulated pool. One or two
+/// threads publish a parallel bulk insertion cut into 1..4 parts, the other threads act as pool
+/// workers at random points of their own programs (or not at all: then the publisher runs every
+/// part itself), and in half of the runs ordinary operations on the same keys go on meanwhile.
+pub fn gen_par_program(rng: &mut Rng, gc: &GenCfg) -> Program {
+    let mut gc = gc.clone();
+    let quiet_background = rng.chance(1, 2);
+    if quiet_background {
+        gc.ops = (0, 0);
+        gc.hold_guard = 0;
+    }
+    let mut p = gen_program(rng, &gc);
+    if quiet_background {
+        for t in p.threads.iter_mut() {
+            t.clear();
+        }
+    }
+    let n = p.threads.len();
+    let mut known: Vec<u32> = crate::exec::universe(&p);
+    if known.is_empty() {
+        known.push(1);
+    }
+    let owners = if n >= 2 && rng.chance(3, 10) { 2 } else { 1 };
+    let mut next_vid = 5_000_000u32;
+    let mut next_key = 300_000u32;
+    let mut owner_threads: Vec<usize> = (0..n).collect();
+    rng.shuffle(&mut owner_threads);
+    owner_threads.truncate(owners);
+    for &t in &owner_threads {
+        let count = *rng.pick(&[1u64, 2, 3, 5, 8, 13, 20, 30]);
+        let dup = rng.chance(1, 2);
+        let mut kv: Vec<(u32, u32)> = Vec::new();
+        for i in 0..count {
+            next_vid += 1;
+            let k = if dup && i > 0 && rng.chance(1, 3) {
+                kv[rng.usize(kv.len())].0
+            } else if rng.chance(2, 5) {
+                *rng.pick(&known)
+            } else {
+                next_key += 1;
+                next_key
+            };
+            kv.push((k, next_vid));
+        }
+        let parts = rng.range(1, 4) as u8;
+        let op = if rng.chance(1, 4) { Op::ParCollect(kv, parts) } else { Op::ParExtend(kv, parts, rng.chance(1, 3)) };
+        let at = rng.usize(p.threads[t].len() + 1);
+        p.threads[t].insert(at, op);
+    }
+    let helpers_active = !rng.chance(1, 6);
+    if helpers_active {
+        for t in 0..n {
+            let is_owner = owner_threads.contains(&t);
+            let k = if is_owner { rng.below(2) } else { rng.range(1, 3) };
+            for _ in 0..k {
+                let at = rng.usize(p.threads[t].len() + 1);
+                p.threads[t].insert(at, Op::ParHelp(rng.range(1, 3) as u8));
+            }
+        }
+    }
+    p
+}
